@@ -199,3 +199,41 @@ func genHlen(r *rand.Rand, tier string, emit func([]string)) {
 		}
 	}
 }
+
+// Expiry inside the expiry second: the lease is acknowledged at X.5 s (ExpiresAt = X+600.5 s, the cache holds X+600),
+// the fast path is probed at X+600.4 s (alive for both), at X+600.6 s (userspace: now.After(ExpiresAt); the program:
+// `X+600 > X+600` is false) and at X+601.1 s, then after the cleanup pass.
+func genSubsecond(r *rand.Rand, tier string, emit func([]string)) {
+	var ops []string
+	sr := rand.New(rand.NewSource(r.Int63()))
+	inBubble(func() {
+		g := &sgen{r: sr, run: comp{}.NewRun().(*run), lease: 600}
+		defer g.run.Close()
+		m1 := [6]byte{2, 0, 0, 0, 0, 1}
+		g.do("new srv 0a000101")
+		g.do("setcfg 0200000000fe 0a000101 2")
+		g.do("addpool 1 0a000100/24 0a000101 08080808 600 0 1")
+		g.do("tickms 500")
+		var offer uint32
+		slow := func(p fp) string { return g.do("slow " + hex.EncodeToString(p.bootp())) }
+		if yi, mt := replyInfo(slow(exhFrame(m1, 1, 0, nil, false, false))); mt == 2 {
+			offer = yi
+		}
+		slow(exhFrame(m1, 3, offer, nil, false, false))
+		probe := func() {
+			g.do(runOp(exhFrame(m1, 1, 0, nil, false, false).frame(), "unix"))
+			g.do(runOp(exhFrame(m1, 1, 0, nil, false, false).frame(), "up100"))
+		}
+		g.do("tick 599")
+		g.do("tickms 900")
+		probe()
+		g.do("tickms 200")
+		probe()
+		g.do("tickms 500")
+		probe()
+		g.do("cleanup")
+		probe()
+		ops = g.ops
+	})
+	emit(ops)
+}
